@@ -49,8 +49,8 @@ STAGES = [
     ("next", ["next_qpos", "next_qvel", "next_act", "next_time"]),
 ]
 SENSOR_AFTER = {1: "contact", 2: "efc", 3: "solve"}   # a sensor of stage s is judged if nothing diverged up to there
-ANALYTIC_PAIRS = {("plane", "sphere"), ("plane", "capsule"), ("plane", "box"), ("sphere", "sphere"),
-                  ("sphere", "capsule"), ("capsule", "capsule")}
+EXACT_PAIRS = {("plane", "sphere"), ("plane", "capsule"), ("sphere", "sphere")}
+SEGMENT_PAIRS = {("sphere", "capsule"), ("capsule", "capsule")}
 GEOMTYPE = {0: "plane", 1: "hfield", 2: "sphere", 3: "capsule", 4: "ellipsoid", 5: "cylinder", 6: "box", 7: "mesh"}
 
 
@@ -89,8 +89,19 @@ def match_rows(ctype, crow, xtype, xrow, tol_fn):
     return pairs, [i for i in range(nc) if i not in usedc], [j for j in range(nx) if j not in usedx], worst
 
 
-def compare_contacts(mt, C, X, i, iterative_ok):
-    """-> (list of (what, err), boundary:int, mapping active C contact -> MJX contact)."""
+K_SEGEPS = ("closest_segment_point divides by |ab|^2 + 1e-6: sphere-capsule / capsule-capsule contact points and normals are "
+            "biased by ~1e-6/|ab|^2 relative to the C engine")
+K_MANIFOLD = "plane-box: plane_convex keeps only support vertices near the deepest one; the C engine returns every vertex below margin"
+
+
+def pair_name(gt, g):
+    names = [GEOMTYPE.get(int(gt[g[0]]), "?"), GEOMTYPE.get(int(gt[g[1]]), "?")]
+    order = list(GEOMTYPE.values())
+    return tuple(sorted(names, key=order.index))
+
+
+def compare_contacts(mt, C, X, i):
+    """-> (list of (what, err, key or None), number of boundary cases)."""
     con = C["contact"]
     xd = X["contact_dist"][i]
     if xd.size == 0 and con.size == 0:
@@ -104,11 +115,10 @@ def compare_contacts(mt, C, X, i, iterative_ok):
         if int(c["exclude"]) != 0:
             continue
         g = (int(c["geom"][0]), int(c["geom"][1]))
-        pair = tuple(sorted((GEOMTYPE.get(int(gt[g[0]]), "?"), GEOMTYPE.get(int(gt[g[1]]), "?")),
-                            key=lambda t: list(GEOMTYPE.values()).index(t)))
-        it = pair not in ANALYTIC_PAIRS
-        rt, at = (RTOL_ITER, ATOL_ITER) if it else (RTOL, ATOL)
-        if abs(float(c["dist"]) - float(c["includemargin"])) < (1e-3 if it else 1e-9):
+        pair = pair_name(gt, g)
+        exact = pair in EXACT_PAIRS or pair in SEGMENT_PAIRS
+        rt, at = (RTOL, ATOL) if exact else (RTOL_ITER, ATOL_ITER)
+        if abs(float(c["dist"]) - float(c["includemargin"])) < (1e-9 if exact else 1e-3):
             boundary += 1
             continue
         best, bj = None, -1
@@ -118,20 +128,22 @@ def compare_contacts(mt, C, X, i, iterative_ok):
             e = np.linalg.norm(X["contact_pos"][i][j] - c["pos"]) + abs(xd[j] - c["dist"])
             if best is None or e < best:
                 best, bj = e, j
-        if bj < 0:
-            problems.append(("contact missing in MJX geoms=%s types=%s dist=%.3g" % (g, pair, c["dist"]), float("inf"), pair))
+        if bj < 0 or (not exact and best > 0.02 and pair == ("plane", "box")):
+            key = K_MANIFOLD if pair == ("plane", "box") else None
+            problems.append(("contact of the C engine missing in MJX: types=%s dist=%.3g" % ("-".join(pair), c["dist"]), float("inf"), key))
             continue
         used.add(bj)
-        for fld, cv in (("dist", c["dist"]), ("pos", c["pos"]), ("frame", c["frame"]), ("includemargin", c["includemargin"]),
-                        ("friction", c["friction"]), ("solref", c["solref"]), ("solreffriction", c["solreffriction"]),
-                        ("solimp", c["solimp"])):
-            xv = X["contact_" + fld][i][bj]
-            if fld == "frame" and it:
+        for fld in ("dist", "pos", "frame", "includemargin", "friction", "solref", "solreffriction", "solimp"):
+            xv, cv = X["contact_" + fld][i][bj], c[fld]
+            if fld == "frame" and not exact:
                 xv, cv = np.asarray(xv).reshape(3, 3)[0], np.asarray(cv).reshape(3, 3)[0]   # normal only
             geo = fld in ("dist", "pos", "frame")
-            e = nerr(xv, cv, rt if geo else RTOL, (at if geo else ATOL))
+            e = nerr(xv, cv, rt if geo else RTOL, at if geo else ATOL)
             if e > 1:
-                problems.append(("contact.%s types=%s" % (fld, "-".join(pair)), e, pair))
+                key = None
+                if geo and pair in SEGMENT_PAIRS and nerr(xv, cv, 1e-3, 1e-4) <= 1:
+                    key = K_SEGEPS
+                problems.append(("contact.%s types=%s" % (fld, "-".join(pair)), e, key))
     # MJX contacts that are active but have no C counterpart
     for j in range(xd.shape[0]):
         if j in used:
@@ -139,12 +151,12 @@ def compare_contacts(mt, C, X, i, iterative_ok):
         pen = xd[j] - xm[j]
         if pen < 0:
             g = (int(xg[j][0]), int(xg[j][1]))
-            pair = (GEOMTYPE.get(int(gt[g[0]]), "?"), GEOMTYPE.get(int(gt[g[1]]), "?"))
-            it = tuple(pair) not in ANALYTIC_PAIRS
-            if abs(pen) < (1e-3 if it else 1e-9):
+            pair = pair_name(gt, g)
+            exact = pair in EXACT_PAIRS or pair in SEGMENT_PAIRS
+            if abs(pen) < (1e-9 if exact else 1e-3):
                 boundary += 1
                 continue
-            problems.append(("contact extra in MJX types=%s" % "-".join(pair), float("inf"), pair))
+            problems.append(("contact extra in MJX types=%s" % "-".join(pair), float("inf"), None))
     return problems, boundary
 
 
@@ -168,6 +180,9 @@ K_SENSOR_ACC = "forward() returns before sensor_acc when the model has no constr
 K_JDOTV = "connect/weld rows: efc_aref lacks the Jdot*v correction that the C engine's mj_referenceConstraint subtracts"
 K_FORCERANGE = "implicitfast: deriv_smooth_vel keeps the velocity derivative of an actuator whose force is clamped by forcerange (C skips it)"
 K_TENARM = "tendon armature over dofs that are not ancestor-related: C drops the cross terms of M (C06 finding), MJX keeps them"
+K_PASSIVE = "passive(): spring OR damper disabled zeroes every passive force (the C engine only skips them when both are disabled)"
+K_XTREE = ("implicitfast: velocity derivatives of tendon dampers/actuators that couple dofs which are not ancestor-related are dropped "
+           "by the C engine's sparse qDeriv but kept by MJX")
 K_NOTOPT = "qacc is not the minimiser of the C engine's constraint problem although MJX's own solver reports a stationary point"
 
 
@@ -209,6 +224,8 @@ def compare_state(J, item, mt, C, X, i, st, xtype_static, part, stats):
             e = chk(f, X[f][i], C[f], rt, at)
             if e > 1:
                 key = None
+                if f in ("qfrc_passive", "qfrc_gravcomp") and bin(int(mt.opt.disableflags) & (32 | 64)).count("1") == 1:
+                    key = K_PASSIVE     # exactly one of mjDSBL_SPRING (1<<5) / mjDSBL_DAMPER (1<<6)
                 if f == "M" and mt.ntendon and np.any(np.array(mt.tendon_armature) > 0):
                     pat = dense(mt.M_rownnz, mt.M_rowadr, mt.M_colind, np.ones(mt.nC), mt.nv, mt.nv) > 0
                     pat = pat | pat.T
@@ -216,12 +233,12 @@ def compare_state(J, item, mt, C, X, i, st, xtype_static, part, stats):
                         key = K_TENARM
                 put(stage, f, e, key)
     # ---- contacts
-    cp, boundary = compare_contacts(mt, C, X, i, iterative)
+    cp, boundary = compare_contacts(mt, C, X, i)
     if boundary:
         part.add("boundary_excluded", boundary)
         return None, info
-    for what, e, pair in cp:
-        put("contact", what, e)
+    for what, e, key in cp:
+        put("contact", what, e, key)
     # ---- efc rows (multiset per type); MJX rows with zero Jacobian are inactive
     xJ = X["efc_J"][i]
     pairs, cact, xi = [], [], []
@@ -298,10 +315,20 @@ def compare_state(J, item, mt, C, X, i, st, xtype_static, part, stats):
             fr, lim, f_ = np.array(mt.actuator_forcerange), np.array(mt.actuator_forcelimited), C["actuator_force"]
             veldep = (np.array(mt.actuator_gainprm)[:, 2] != 0) | (np.array(mt.actuator_biasprm)[:, 2] != 0)
             sat = bool(np.any((lim != 0) & veldep & ((f_ <= fr[:, 0]) | (f_ >= fr[:, 1]))))
+        cross = False
+        if int(mt.opt.integrator) == 3 and mt.ntendon:
+            pat = dense(mt.M_rownnz, mt.M_rowadr, mt.M_colind, np.ones(mt.nC), mt.nv, mt.nv) > 0
+            pat = pat | pat.T
+            for row in C["ten_J"]:
+                nz = np.nonzero(row)[0]
+                cross = cross or any(not pat[a_, b_] for a_ in nz for b_ in nz)
         for f in ("next_qpos", "next_qvel", "next_act", "next_time"):
             e = chk(f, X[f][i], C[f], rt, at)
             if e > 1:
-                put("next", f, e, K_FORCERANGE if (sat and f in ("next_qpos", "next_qvel")) else None)
+                key = None
+                if f in ("next_qpos", "next_qvel"):
+                    key = K_FORCERANGE if sat else (K_XTREE if cross else None)
+                put("next", f, e, key)
     return div, info
 
 
@@ -313,7 +340,9 @@ def sensor_diffs(J, mt, C, X, i, nefc_c, iterative, stats):
         stage = int(mt.sensor_needstage[s])
         rt, at = RTOL, ATOL
         if stage == 3 and nefc_c:
-            rt, at = RTOL_SOLVE, ATOL_SOLVE
+            # residuals of the iterative solve enter through cancellations: scale by the constraint force level
+            fs = 1.0 + (float(np.max(np.abs(C["efc_force"]))) if C["efc_force"].size else 0.0)
+            rt, at = RTOL_SOLVE, ATOL_SOLVE * fs
         if iterative:
             rt, at = max(rt, RTOL_ITER), max(at, ATOL_ITER)
         e = nerr(X["sensordata"][i][a:a + n], C["sensordata"][a:a + n], rt, at)
@@ -472,16 +501,19 @@ def alphabet(thorough):
         add(it, desc + tuple("%s=%s" % kv for kv in fl.items()))
     # contact scenes: every primitive pair of MJX's table
     plane_pairs = [("plane", g) for g in ("sphere", "capsule", "box", "ellipsoid", "cylinder")]
-    body_pairs_exact = [("sphere", "sphere"), ("sphere", "capsule"), ("capsule", "capsule")]
+    plane_exact = plane_pairs[:2]
+    body_pairs_exact = [("sphere", "sphere"), ("sphere", "sphere")]
+    body_pairs_seg = [("sphere", "capsule"), ("capsule", "capsule")]
     body_pairs_iter = [("sphere", "box"), ("capsule", "box"), ("box", "box"), ("sphere", "ellipsoid"), ("sphere", "cylinder"),
                        ("capsule", "ellipsoid"), ("capsule", "cylinder"), ("ellipsoid", "ellipsoid"), ("ellipsoid", "cylinder"),
                        ("cylinder", "cylinder")]
-    scenes = [(3, plane_pairs[:3], "plane-analytic"), (3, body_pairs_exact, "body-analytic"),
-              (6, plane_pairs[:3], "plane-analytic"), (4, body_pairs_exact, "body-analytic")]
+    scenes = [(3, plane_exact, "plane-analytic"), (3, body_pairs_exact, "body-analytic"),
+              (6, plane_exact + body_pairs_exact[:1], "mixed-analytic"), (4, body_pairs_exact, "body-analytic"),
+              (3, body_pairs_seg, "segment"), (3, plane_pairs[2:3], "plane-box")]
     if thorough:
-        scenes += [(1, plane_pairs[:3], "plane-analytic"), (1, body_pairs_exact, "body-analytic"),
-                   (4, plane_pairs[:3], "plane-analytic"), (6, body_pairs_exact, "body-analytic"),
-                   (3, plane_pairs[:3] + body_pairs_exact, "mixed")]
+        scenes += [(1, plane_exact, "plane-analytic"), (1, body_pairs_exact, "body-analytic"),
+                   (4, plane_exact, "plane-analytic"), (6, body_pairs_exact, "body-analytic"),
+                   (3, plane_exact + body_pairs_exact, "mixed"), (6, body_pairs_seg, "segment"), (4, plane_pairs[2:3], "plane-box")]
     for condim, pairs, nm in scenes:
         o, desc = opt("contact")
         add(G.contact_model("contact[%s,condim%d]" % (nm, condim), o, pairs, condim=condim,
@@ -490,15 +522,15 @@ def alphabet(thorough):
     # richer contact parameter mixing / impratio (analytic pairs)
     if thorough:
         o, desc = opt("contact", impratio="2.5")
-        add(G.contact_model("contact[mix,impratio]", o, plane_pairs[:2] + body_pairs_exact[:2], condim=3, margin=0.004,
+        add(G.contact_model("contact[mix,impratio]", o, plane_exact + body_pairs_exact[:1], condim=3, margin=0.004,
                             floor_attr='solmix="2.5" solref="0.015 0.8" solimp="0.8 0.9 0.002 0.3 3"'), desc + ("impratio2.5",))
         o, desc = opt("contact", impratio="0.6")
-        add(G.contact_model("contact[direct-solref,impratio]", o, plane_pairs[:3], condim=4, solref="-900 -40",
+        add(G.contact_model("contact[direct-solref,impratio]", o, plane_exact, condim=4, solref="-900 -40",
                             floor_attr='solimp="0.85 0.9 0.002 0.5 2"'), desc + ("impratio0.6",))
         o, desc = opt("contact")
         add(G.contact_model("contact[mu0]", o, plane_pairs[:2], condim=3, friction="0 0 0", floor_attr=""), desc)
         o, desc = opt("contact")
-        add(G.contact_model("contact[exclude]", o, body_pairs_exact[:2] + plane_pairs[:1], condim=3, exclude=True), desc)
+        add(G.contact_model("contact[exclude]", o, body_pairs_exact[:2] + plane_exact[:1], condim=3, exclude=True), desc)
     # feature gate: MJCF features newer than / outside MJX-JAX; put_model must either reject them or reproduce C
     gate = [("actearly", dict(post=[('dyntype="filter" dynprm="0.1"', 'dyntype="filter" dynprm="0.1" actearly="true"')])),
             ("noslip", dict(extra_opt='noslip_iterations="3"', contact=True)),
@@ -515,7 +547,7 @@ def alphabet(thorough):
         o = G.option(integrator=integ, solver="Newton", cone=["pyramidal", "elliptic"][gi % 2], extra=eo)
         desc = (integ, "Newton", ["pyramidal", "elliptic"][gi % 2], "auto")
         if kw.pop("contact", False):
-            it = G.contact_model("gate[%s]" % gname, o, plane_pairs[:2] + body_pairs_exact[:1], condim=3, **kw)
+            it = G.contact_model("gate[%s]" % gname, o, plane_exact + body_pairs_exact[:1], condim=3, **kw)
         else:
             it = G.tree_model("gate[%s]" % gname, (-1, 0), ("hinge", "slide") if gi % 2 else ("free", "hinge"), o, tendon=True,
                               actuators=1, sensors=1, **kw)
